@@ -67,9 +67,15 @@ Definition tx_prefix (t : txd) : list bop :=
 
 Definition tx_open (b : bstate) (t : txd) : bstate := run_b b (tx_prefix t).
 Definition tx_body_end (b : bstate) (t : txd) : bstate := run_b (tx_open b t) (t_body t).
-Definition run_tx (b : bstate) (t : txd) : bstate * option cbal :=
+Definition run_tx_def (b : bstate) (t : txd) : bstate * option cbal :=
   let '(b3, w) := step_b (tx_body_end b t) (BOp (OFinalise (t_r t))) in
   (b3, match w with BFin ret => ret | _ => None end).
+(* sealed: the block-level statements mention [run_tx] only through [run_tx_eq], which keeps
+   the kernel from normalising whole transactions during conversion *)
+Definition run_tx_aux : seal run_tx_def. Proof. by eexists. Qed.
+Definition run_tx := unseal run_tx_aux.
+Lemma run_tx_eq : run_tx = run_tx_def.
+Proof. apply (seal_eq run_tx_aux). Qed.
 
 (* "blockAccessList.Merge(ret)" after every step (Merge(nil) is a no-op) *)
 Fixpoint run_block (b : bstate) (M : cbal) (ts : list txd) : bstate * cbal :=
@@ -167,7 +173,7 @@ Proof.
 Qed.
 
 Lemma run_tx_fst b t : (run_tx b t).1 = (step_b (tx_body_end b t) (BOp (OFinalise (t_r t)))).1.
-Proof. unfold run_tx. by destruct (step_b _ _). Qed.
+Proof. rewrite run_tx_eq. unfold run_tx_def. by destruct (step_b _ _). Qed.
 
 (* one step of a block *)
 Lemma run_tx_step b t :
@@ -187,10 +193,8 @@ Proof.
   destruct (tx_from (b_j b) (tx_open b t) (t_idx t) (t_r t) (t_body t) T Hr Hc Ha Hi Hb G) as (R & E & T3 & F).
   fold (tx_body_end b t) in E, T3, F.
   exists R. subst b3. rewrite run_tx_fst. split; [|split; [exact T3|exact F]].
-  unfold run_tx. destruct (step_b (tx_body_end b t) (BOp (OFinalise (t_r t)))) as [b3 w]. cbn [fst snd] in *. by subst w.
+  rewrite run_tx_eq. unfold run_tx_def. destruct (step_b (tx_body_end b t) (BOp (OFinalise (t_r t)))) as [b3 w]. cbn [fst snd] in *. by subst w.
 Qed.
-
-Strategy opaque [run_tx].
 
 Lemma w_union_None x y : w_union x y = None ↔ x = None ∧ y = None.
 Proof. unfold w_union. destruct x, y; simpl; split; try done; by intros []. Qed.
@@ -215,8 +219,10 @@ Lemma block_records b M ts :
               (k ∈ oreads (M !! a) ∨ some_read a k b ts) ∧ owrites (M' !! a) !! k = None).
 Proof.
   revert b M. induction ts as [|t rest IH]; intros b M T Hok HM; cbn [run_block block_ok spec_field spec_writes some_read fst snd] in *.
-  { split; [done|]. intros a. repeat split; try done; [|by intros [[?|[]] _]].
-    intros H. split; [by left|by apply HM]. }
+  { split; [done|]. intros a. split; [done|]. split; [done|]. split; [done|].
+    intros k. split; [done|]. split.
+    - intros H. split; [by left|by apply HM].
+    - intros [[H|[]] _]. done. }
   destruct Hok as (Hr & Hb & G & Hrest).
   destruct (run_tx_step b t T Hr Hb G) as (R & ER & T3 & F).
   destruct (run_tx b t) as [b3 ret] eqn:Ert. cbn [fst snd] in *. subst ret.
@@ -226,7 +232,7 @@ Proof.
   assert (HM1 : ∀ a, odisj (cbal_merge M R !! a)).
   { intros a k Hk. destruct (merge_proj M R a) as (_ & _ & _ & Hw & Hrd).
     apply (Hrd (HM a) (HR a)) in Hk as [[Hk Hn]|[_ ?]]; [|done].
-    rewrite Hw Hn. unfold w_union. simpl. by apply HM. }
+    rewrite Hw Hn (HM a k Hk). done. }
   destruct (IH b3 (cbal_merge M R) T3 Hrest HM1) as [TF IHa]. split; [exact TF|].
   intros a. destruct (IHa a) as (I1 & I2 & I3 & Ik). destruct (merge_proj M R a) as (P1 & P2 & P3 & Pw & Prd).
   destruct (F a) as (F1 & F2 & F3 & Fk).
@@ -243,3 +249,106 @@ Proof.
     pose proof H1 as H2. rewrite Pw in H2. apply w_union_None in H2 as [HRn HMn].
     destruct H as [Hk|[Hrd|Hs]]; [left; left; done|left; right; done|by right].
 Qed.
+
+(* C15_block_records_exactly_net_changes: the merged list of a whole block, from the empty list *)
+Theorem block_records_exactly_net_changes b0 ts :
+  tx_boundary (b_j b0) → block_ok b0 ts →
+  let M := (run_block b0 ∅ ts).2 in
+  tx_boundary (b_j (run_block b0 ∅ ts).1) ∧
+  ∀ a,
+    obal (M !! a) = spec_field a_bal a b0 ts ∅
+    ∧ ononce (M !! a) = spec_field a_nonce a b0 ts ∅
+    ∧ ocode (M !! a) = spec_field a_code a b0 ts ∅
+    ∧ ∀ k, owrites (M !! a) !! k = spec_writes a k b0 ts None
+           ∧ (k ∈ oreads (M !! a) ↔ some_read a k b0 ts ∧ spec_writes a k b0 ts None = None).
+Proof.
+  intros T Hok M.
+  assert (H0 : ∀ a, odisj ((∅ : cbal) !! a)).
+  { intros a k. rewrite lookup_empty. set_solver. }
+  destruct (block_records b0 ∅ ts T Hok H0) as [TF H]. split; [exact TF|].
+  intros a. destruct (H a) as (H1 & H2 & H3 & Hk). rewrite lookup_empty in H1, H2, H3.
+  split; [exact H1|]. split; [exact H2|]. split; [exact H3|].
+  intros k. destruct (Hk k) as [Hw Hr]. rewrite lookup_empty in Hw, Hr. simpl in Hw, Hr.
+  split; [exact Hw|]. subst M. rewrite Hr Hw. set_solver.
+Qed.
+
+(* reading the specification: the contribution of the steps combines "later step wins per
+   index"; with pairwise distinct indices (the transactions of a block) every step's entry
+   survives unchanged *)
+Lemma spec_field_acc f a b ts acc : spec_field f a b ts acc = spec_field f a b ts ∅ ∪ acc.
+Proof.
+  revert b acc. induction ts as [|t rest IH]; intros b acc; cbn [spec_field].
+  - by rewrite (left_id_L ∅ (∪)).
+  - rewrite IH (IH _ (_ ∪ ∅)) (right_id_L ∅ (∪)). by rewrite (assoc_L (∪)).
+Qed.
+
+Theorem spec_field_cons f a b t rest i :
+  spec_field f a b (t :: rest) ∅ !! i =
+    match spec_field f a (run_tx b t).1 rest ∅ !! i with
+    | Some v => Some v
+    | None => upd_set (t_idx t) (f (pre_data (b_j (run_tx b t).1) a)) (f (pre_data (b_j b) a)) !! i
+    end.
+Proof.
+  cbn [spec_field]. rewrite spec_field_acc (right_id_L ∅ (∪)) lookup_union.
+  by destruct (spec_field f a (run_tx b t).1 rest ∅ !! i), (upd_set _ _ _ !! i).
+Qed.
+
+Theorem upd_set_lookup idx post pre i :
+  upd_set idx post pre !! i = if bool_decide (i = idx ∧ post ≠ pre) then Some post else None.
+Proof.
+  unfold upd_set. destruct (post =? pre) eqn:E.
+  - apply N.eqb_eq in E. rewrite lookup_empty bool_decide_false; [by intros []|done].
+  - apply N.eqb_neq in E. destruct (decide (i = idx)) as [->|Hne].
+    + by rewrite lookup_singleton bool_decide_true.
+    + rewrite lookup_singleton_ne // bool_decide_false; [by intros []|done].
+Qed.
+
+Lemma w_union_assoc x y z : w_union (w_union x y) z = w_union x (w_union y z).
+Proof. unfold w_union. destruct x, y, z; simpl; try done. by rewrite (assoc_L (∪)). Qed.
+
+Lemma spec_writes_acc a k b ts acc : spec_writes a k b ts acc = w_union (spec_writes a k b ts None) acc.
+Proof.
+  revert b acc. induction ts as [|t rest IH]; intros b acc; cbn [spec_writes].
+  - by destruct acc.
+  - rewrite IH (IH _ (w_union _ None)). rewrite w_union_assoc. f_equal.
+    by destruct (st_write _ _ _), acc.
+Qed.
+
+Theorem spec_writes_cons a k b t rest :
+  spec_writes a k b (t :: rest) None =
+    w_union (spec_writes a k (run_tx b t).1 rest None)
+            (st_write (t_idx t) (view_state (b_j (run_tx b t).1) a k) (view_state (b_j b) a k)).
+Proof.
+  cbn [spec_writes]. rewrite spec_writes_acc. f_equal. by destruct (st_write _ _ _).
+Qed.
+
+(* executable form of [run_block] (for examples) *)
+Fixpoint run_block_x (b : bstate) (M : cbal) (ts : list txd) : bstate * cbal :=
+  match ts with
+  | [] => (b, M)
+  | t :: rest =>
+      let '(b3, ret) := run_tx_def b t in
+      run_block_x b3 (match ret with Some R => cbal_merge M R | None => M end) rest
+  end.
+Lemma run_block_x_eq b M ts : run_block b M ts = run_block_x b M ts.
+Proof.
+  revert b M. induction ts as [|t rest IH]; intros b M; cbn [run_block run_block_x]; [done|].
+  rewrite run_tx_eq. destruct (run_tx_def b t) as [b3 ret]. apply IH.
+Qed.
+
+(* the C15-1 seed: a slot restored in a LATER transaction to its block-start value is still a
+   write at that index.  Contract 1 (balance 7, nonce 1, code 1): tx 1 (index 1) sets slot 0 to 5,
+   tx 2 (index 2) sets it back to 0, tx 3 (index 3) only reads it: the merged list has
+   slot 0 -> {1 := 5, 2 := 0} and no read of slot 0. *)
+Definition db_contract1 : database :=
+  {[ 1 := {| d_acct := {| a_nonce := 1; a_bal := 7; a_code := 1 |}; d_stor := ∅ |} ]}.
+Definition mk_tx (i : N) (body : list bop) : txd :=
+  {| t_sys := false; t_th := i; t_ti := i - 1; t_idx := i; t_r := r_ams; t_s := 1; t_c := 2; t_d := None; t_l := [];
+     t_body := body |}.
+Definition restored_later_block : list txd :=
+  [ mk_tx 1 [BOp (OSetState 1 0 5)]; mk_tx 2 [BOp (OSetState 1 0 0)]; mk_tx 3 [BGet (QState 1 0)] ].
+Definition restored_later_expected : bal :=
+  [ {| aa_addr := 1; aa_changes := [(0, [(1, 5); (2, 0)])]; aa_reads := []; aa_bal := []; aa_nonce := []; aa_code := [] |} ].
+Definition restored_later_check : bool :=
+  let M := (run_block_x (init_b db_contract1) ∅ restored_later_block).2 in
+  bool_decide (encode (to_encoding_obj (λ _, []) M) = encode restored_later_expected).
